@@ -10,6 +10,8 @@ import (
 	"github.com/ClickHouse/ch-go/proto"
 
 	"verif/checks/seq/reg"
+	"verif/refcol"
+	"verif/refwire"
 	"verif/vk"
 )
 
@@ -74,7 +76,7 @@ func uvar(v uint64) []byte { return binary.AppendUvarint(nil, v) }
 
 // C06 — hostile or corrupted input yields an error, never a crash or bad column.
 func C06(c *vk.Ctx) {
-	c.Rule("corpus = one valid block per registry composition (rows built from the boundary alphabet) at revision 54460 and the C17 messages; mutations: (a) every byte offset x {8 bit flips, 00, FF}; (b) at every byte offset an 8-byte little-endian field overwritten with each of {0, 1, 127, 128, 255, 256, 65535, 65536, 2^31-1, 2^31, 2^32, 2^40, 2^62, 2^63, 2^64-1} (offsets, dictionary sizes, key counts, LowCardinality meta) and the byte replaced by the varint encoding of the same values (row / column counts, string lengths); (c) splices: prefix of one block + suffix of another block of the same column at every offset. Each mutant is decoded through the typed target and through Auto in a worker with a 3 GiB address-space limit and the block row cap lowered to 65536; oracle: returns (watchdog 30 s), no panic, process survives, and on success every column reports the block's row count and Row(i) works for all i. distinct_nontrivial = mutants evaluated (each is a distinct byte string by construction).")
+	c.Rule("corpus = one valid block per registry composition (rows built from the boundary alphabet; for LowCardinality compositions also the same block as a server may write it, with 16- and 64-bit keys) at revision 54460 and the C17 messages; mutations: (a) every byte offset x {8 bit flips, 00, FF}; (b) at every byte offset an 8-byte little-endian field overwritten with each of {0, 1, 127, 128, 255, 256, 65535, 65536, 2^31-1, 2^31, 2^32, 2^40, 2^62, 2^63, 2^64-1} (offsets, dictionary sizes, key counts, LowCardinality meta) and the byte replaced by the varint encoding of the same values (row / column counts, string lengths); (c) splices: prefix of one block + suffix of another block of the same column at every offset. Each mutant is decoded through the typed target and through Auto in a worker with a 3 GiB address-space limit and the block row cap lowered to 65536; oracle: returns (watchdog 30 s), no panic, process survives, and on success every column reports the block's row count and Row(i) works for all i. distinct_nontrivial = mutants evaluated (each is a distinct byte string by construction).")
 	c.Watchdog(30*time.Second, "C06/does-not-terminate")
 	rev := 54460
 	quick := c.Quick()
@@ -136,40 +138,69 @@ func C06(c *vk.Ctx) {
 		if full == nil {
 			continue
 		}
-		// the mutation-free encoding must decode (otherwise the corpus item is useless)
-		for off := 0; off < len(full); off++ {
-			// (a) single byte
-			for bit := 0; bit < 10; bit++ {
-				v := full[off] ^ (1 << (bit % 8))
-				if bit == 8 {
-					v = 0
-				} else if bit == 9 {
-					v = 0xff
+		corpus := []struct {
+			tag  string
+			b, o []byte
+		}{{"", full, other}}
+		if strings.Contains(e.Label, "LowCardinality") && !noRef(e.Label) {
+			// the same block as a server may write it: keys wider than the library would choose
+			if _, _, want, err := build(e, []int{0, 1 % na, 2 % na}); err == nil {
+				for _, kw := range []int{1, 3} {
+					if quick && kw == 1 {
+						continue
+					}
+					refcol.LCKeyWidth = kw
+					var w refwire.W
+					refcol.EncodeBlockBody(&w, rev, refwire.BlockInfo{BucketNum: -1}, len(want), []refcol.BlockCol{{Name: "col", Type: probe.T, Vals: want}})
+					refcol.LCKeyWidth = -1
+					corpus = append(corpus, struct {
+						tag  string
+						b, o []byte
+					}{fmt.Sprintf("/keys%d", 8<<kw), w.B, nil})
 				}
-				if v == full[off] {
-					continue
-				}
-				m := append([]byte{}, full...)
-				m[off] = v
-				eval(e, fmt.Sprintf("%s/byte/off=%d/val=%#x", e.Label, off, v), m, "single-byte")
 			}
-			// (b) field values
-			for hi, hv := range c06Huge {
-				if quick && hi%2 == 1 && hv < 1<<40 {
-					continue
-				}
-				if off+8 <= len(full) {
+		}
+		for _, item := range corpus {
+			full, other, tag := item.b, item.o, item.tag
+			if tag != "" {
+				// the unmutated alternative encoding must decode
+				eval(e, e.Label+tag+"/valid", full, "alternative valid encodings")
+			}
+			// the mutation-free encoding must decode (otherwise the corpus item is useless)
+			for off := 0; off < len(full); off++ {
+				// (a) single byte
+				for bit := 0; bit < 10; bit++ {
+					v := full[off] ^ (1 << (bit % 8))
+					if bit == 8 {
+						v = 0
+					} else if bit == 9 {
+						v = 0xff
+					}
+					if v == full[off] {
+						continue
+					}
 					m := append([]byte{}, full...)
-					binary.LittleEndian.PutUint64(m[off:], hv)
-					eval(e, fmt.Sprintf("%s/u64/off=%d/val=%d", e.Label, off, hv), m, "u64-field")
+					m[off] = v
+					eval(e, fmt.Sprintf("%s/byte/off=%d/val=%#x", e.Label+tag, off, v), m, "single-byte")
 				}
-				m := append(append(append([]byte{}, full[:off]...), uvar(hv)...), full[off+1:]...)
-				eval(e, fmt.Sprintf("%s/varint/off=%d/val=%d", e.Label, off, hv), m, "varint-field")
-			}
-			// (c) splice
-			if other != nil && off < len(other) {
-				m := append(append([]byte{}, full[:off]...), other[off:]...)
-				eval(e, fmt.Sprintf("%s/splice/off=%d", e.Label, off), m, "splice")
+				// (b) field values
+				for hi, hv := range c06Huge {
+					if quick && hi%2 == 1 && hv < 1<<40 {
+						continue
+					}
+					if off+8 <= len(full) {
+						m := append([]byte{}, full...)
+						binary.LittleEndian.PutUint64(m[off:], hv)
+						eval(e, fmt.Sprintf("%s/u64/off=%d/val=%d", e.Label+tag, off, hv), m, "u64-field")
+					}
+					m := append(append(append([]byte{}, full[:off]...), uvar(hv)...), full[off+1:]...)
+					eval(e, fmt.Sprintf("%s/varint/off=%d/val=%d", e.Label+tag, off, hv), m, "varint-field")
+				}
+				// (c) splice
+				if other != nil && off < len(other) {
+					m := append(append([]byte{}, full[:off]...), other[off:]...)
+					eval(e, fmt.Sprintf("%s/splice/off=%d", e.Label+tag, off), m, "splice")
+				}
 			}
 		}
 	}
